@@ -1,4 +1,6 @@
 """M1: page layer specifications (SPEC-page, INV-writer, INV-reader) and obligations."""
+import re
+
 import z3
 
 from .dm import udiv, urem
@@ -70,6 +72,40 @@ def init_interp(I):
     I.alloc_events = []
 
 
+
+def fill_unknown_fields(I, struct, fields, prefix):
+    """fields of the crate's struct that this specification does not know (added by a later source change) get arbitrary
+    symbolic values of their declared type: an over-approximation of the reachable states (counterexamples that rely on an
+    unreachable value of such a field do not replay natively and are reported as inconclusive, never as violations)"""
+    src = None
+    for text in I.sources.values():
+        m = re.search(r"struct %s(?:<[^>{]*>)?\s*(?:where[^{]*)?\{(.*?)\n\}" % struct, text, re.S)
+        if m:
+            src = m.group(1)
+            break
+    names = I.struct_fields[struct]
+    for idx, nm in enumerate(names):
+        if fields[idx] is not None:
+            continue
+        ty = ""
+        if src:
+            mm = re.search(r"\b%s\s*:\s*([^,\n]+)" % nm, src)
+            ty = mm.group(1).strip() if mm else ""
+        if ty in ("u64", "usize", "i64", "isize"):
+            fields[idx] = z3.BitVec("%s_%s" % (prefix, nm), 64)
+        elif ty in ("u32", "i32"):
+            fields[idx] = z3.BitVec("%s_%s" % (prefix, nm), 32)
+        elif ty in ("u8",):
+            fields[idx] = z3.BitVec("%s_%s" % (prefix, nm), 8)
+        elif ty == "bool":
+            fields[idx] = z3.Bool("%s_%s" % (prefix, nm))
+        elif ty.startswith("Option<"):
+            fields[idx] = NoneV()
+        else:
+            fields[idx] = Opaque("unknown field %s: %s" % (nm, ty))
+    return fields
+
+
 # =============================================================================================== reader
 def reader_fields(I):
     names = I.struct_fields["PagedReader"]
@@ -108,6 +144,7 @@ def mk_reader_state(I, cached, max_pages=8, mode="total", fault_at=None, devname
         fields[f["page_buffer"]] = sym_buf(devname + "_stalebuf", PAGE)
     if "crc" in f:
         fields[f["crc"]] = Agg("struct", [Opaque("crc table")], "Crc32")
+    fill_unknown_fields(I, "PagedReader", fields, devname)
     rd = Agg("struct", fields, "PagedReader")
     return rd, dev, dict(npages=npages, offset=off, cached=c, content=content)
 
@@ -218,6 +255,7 @@ def mk_writer_state(I, max_pages=8, mode="total", fault_at=None, devname="wdev")
     fields[f["page_buffer"]] = s.wbuf
     if "crc" in f:
         fields[f["crc"]] = Agg("struct", [Opaque("crc table")], "Crc32")
+    fill_unknown_fields(I, "PagedWriter", fields, devname)
     s.w = Agg("struct", fields, "PagedWriter")
     s.holder = {"w": s.w}
     s.ref = Ref(Loc(s.holder, "w"))
@@ -483,23 +521,56 @@ WRITER_DRIVER = r"""
 #[cfg(test)]
 mod verif_replay {
     use super::*;
-    use std::io::{Cursor, Write};
+    use std::io::{Cursor, Read, Seek, SeekFrom, Write};
 %(helpers)s
-    pub(crate) fn dump(tag: &str, w: &mut PagedWriter<Cursor<Vec<u8>>>) {
-        let pos = w.writer.position();
-        println!("VR {}_offset={} {}_pos={} {}_buf={} {}_dev=x{}", tag, w.offset, tag, pos, tag, vhex(&w.page_buffer), tag, vhex(w.writer.get_ref()));
+    /// device wrapper: after `arm`, the listed transfers are short and operation number `fault_at` fails
+    pub(crate) struct FaultDev { inner: Cursor<Vec<u8>>, ops: i64, fault_at: i64, shorts: Vec<usize>, armed: bool }
+    impl FaultDev {
+        fn new() -> Self { FaultDev { inner: Cursor::new(Vec::new()), ops: 0, fault_at: -1, shorts: Vec::new(), armed: false } }
+        fn arm(&mut self, fault_at: i64, shorts: Vec<usize>) { self.ops = 0; self.fault_at = fault_at; self.shorts = shorts; self.armed = true; }
+        fn tick(&mut self) -> std::io::Result<()> {
+            let i = self.ops; self.ops += 1;
+            if self.armed && i == self.fault_at { return Err(std::io::Error::new(std::io::ErrorKind::Other, "injected device error")); }
+            Ok(())
+        }
+        fn short(&mut self, n: usize) -> usize {
+            if self.armed && !self.shorts.is_empty() && n > 0 { let k = self.shorts.remove(0); if k < n { return k; } }
+            n
+        }
+    }
+    impl Read for FaultDev {
+        fn read(&mut self, buf: &mut [u8]) -> std::io::Result<usize> {
+            self.tick()?;
+            let avail = (self.inner.get_ref().len() as u64).saturating_sub(self.inner.position()) as usize;
+            let want = if buf.len() < avail { buf.len() } else { avail };
+            let n = self.short(want);
+            self.inner.read(&mut buf[..n])
+        }
+    }
+    impl Write for FaultDev {
+        fn write(&mut self, buf: &[u8]) -> std::io::Result<usize> { self.tick()?; let n = self.short(buf.len()); self.inner.write(&buf[..n]) }
+        fn flush(&mut self) -> std::io::Result<()> { self.tick()?; Ok(()) }
+    }
+    impl Seek for FaultDev {
+        fn seek(&mut self, p: SeekFrom) -> std::io::Result<u64> { self.tick()?; self.inner.seek(p) }
+    }
+    pub(crate) fn dump(tag: &str, w: &mut PagedWriter<FaultDev>) {
+        let pos = w.writer.inner.position();
+        println!("VR {}_offset={} {}_pos={} {}_buf={} {}_dev=x{}", tag, w.offset, tag, pos, tag, vhex(&w.page_buffer), tag, vhex(w.writer.inner.get_ref()));
     }
     #[test]
     fn verif_replay_case() {
         let stream: Vec<u8> = %(stream)s;
         let pending: Vec<u8> = %(pending)s;
-        let mut w = PagedWriter::new(Cursor::new(Vec::new())).unwrap();
+        let mut w = PagedWriter::new(FaultDev::new()).unwrap();
         w.write_all(&stream).unwrap();
         w.flush().unwrap();
         if %(P)d < %(npages)d { w.physical_seek(%(P)d * 1024).unwrap(); }
         w.write_all(&pending).unwrap();
         dump("pre", &mut w);
+        w.writer.arm(%(fault_at)d, vec![%(shorts)s]);
         %(op)s
+        w.writer.armed = false;
         dump("post", &mut w);
         std::mem::forget(w);
     }
@@ -515,6 +586,14 @@ def writer_extract(model, s, extra=None):
     pending = mbytes(model, s.wbuf.fn, offset)
     pre = dict(npages=npages, P=P, offset=offset, stream=bytes(stream), pending=pending,
                sk=skolems(model))
+    dev = getattr(s, "dev", None)
+    pre["fault_at"] = -1
+    pre["shorts"] = []
+    if dev is not None:
+        if dev.fault_at is not None:
+            fa = mval(model, dev.fault_at)
+            pre["fault_at"] = fa if fa < 10 ** 6 else -1
+        pre["shorts"] = [mval(model, k) for what, k in dev.ks]
     if extra:
         pre.update(extra(model, s))
     return pre
@@ -568,7 +647,8 @@ class WriterReplay:
 
     def run(self, I, scenario, claim_name, pre):
         code = WRITER_DRIVER % dict(helpers=HELPERS, stream=rust_bytes(pre["stream"]), pending=rust_bytes(pre["pending"]),
-                                    P=pre["P"], npages=pre["npages"], op=self.op_rust(pre))
+                                    P=pre["P"], npages=pre["npages"], op=self.op_rust(pre),
+                                    fault_at=pre.get("fault_at", -1), shorts=",".join(str(x) for x in pre.get("shorts", [])))
         rc, out = run_rust_test(I.crate_dir, "paged_writer.rs", code)
         kv = parse_kv(out)
         info = dict(pre={k: (v.hex() if isinstance(v, bytes) and len(v) <= 64 else (len(v) if isinstance(v, bytes) else v)) for k, v in pre.items()}, rust=code)
@@ -585,6 +665,9 @@ class WriterReplay:
             if not pre_ok:
                 return False, "native pre-state differs from the model's pre-state", info
             sc.res = parse_result(kv)
+            if pre.get("fault_at", -1) >= 0 and kv.get("res", "").startswith("err"):
+                f_ = writer_fields(I)
+                sc.holder["w"].fields[f_["writer"]].log.append(("fault", "native", pre["fault_at"]))
             if self.patch:
                 self.patch(sc, pre, kv)
             vals = {}
@@ -705,15 +788,20 @@ mod verif_replay {
 
 
 def seal_device(I, model, content_fn, npages):
-    """device bytes of the model with real CRC-32C checksums: valid pages (per the model) sealed, invalid ones broken"""
+    """device bytes of the model with real CRC-32C checksums.  A page that is valid in the model is sealed; for an invalid one
+    exactly those checksum bytes that mismatch in the model are made to mismatch natively (so a counterexample that depends on
+    WHICH checksum byte is wrong carries over)."""
     out = bytearray()
     for pg in range(npages):
         page = bytearray(mbytes(model, lambda k, pg=pg: content_fn(U64(pg * PAGE) + k), PAGE))
-        ok = mval(model, page_valid(I, content_fn, U64(pg)))
-        crc = crc32c(bytes(page[:PAYLOAD]))
-        if not ok:
-            crc ^= 0x00000100
-        page[PAYLOAD:] = crc.to_bytes(4, "big")
+        base = U64(pg * PAGE)
+        payload = Buf(lambda k: content_fn(base + k), PAYLOAD)
+        want = be_bytes32(crc_sample(I, payload, U64(PAYLOAD)))
+        real = bytearray(crc32c(bytes(page[:PAYLOAD])).to_bytes(4, "big"))
+        for b in range(4):
+            if mval(model, want[b]) != page[PAYLOAD + b]:
+                real[b] ^= 0x01
+        page[PAYLOAD:] = real
         out += page
     return bytes(out)
 
@@ -948,9 +1036,17 @@ def short_and_fault_scenarios(tier="quick"):
         ("physical_size", w_simple_scenario("physical_size"), w_size_claims),
         ("align", w_simple_scenario("align"), w_align_claims),
     ]
+    R = WriterReplay
+    rps = {
+        "write_all": R(lambda pre: "let data: Vec<u8> = %s; %s" % (rust_bytes(pre["data"]), _res_unit("w.write_all(&data)")), _write_extra, _write_patch),
+        "flush": R(lambda pre: _res_unit("w.flush()")),
+        "physical_seek": R(lambda pre: _res_unit("w.physical_seek(%d)" % pre["pos"]), _seek_extra, _seek_patch),
+        "physical_size": R(lambda pre: _res_num("w.physical_size()")),
+        "align": R(lambda pre: _res_unit("w.align()")),
+    }
     for nm, sc, cl in table:
-        out.append(Scenario("PagedWriter %s over a device with arbitrary short reads/writes" % nm, with_mode(sc, mode="short"), cl, max_paths=3000, time_budget=900))
-        out.append(Scenario("PagedWriter %s with one device error at any operation" % nm, with_mode(sc, fault_at=fa), fault_wrap(cl), max_paths=3000, time_budget=900))
+        out.append(Scenario("PagedWriter %s over a device with arbitrary short reads/writes" % nm, with_mode(sc, mode="short"), cl, max_paths=3000, time_budget=900, replayer=rps[nm]))
+        out.append(Scenario("PagedWriter %s with one device error at any operation" % nm, with_mode(sc, fault_at=fa), fault_wrap(cl), max_paths=3000, time_budget=900, replayer=rps[nm]))
     return out
 
 
@@ -1056,3 +1152,142 @@ def reader_misc_scenarios():
         Scenario("PagedReader::seek_physical from INV state, page cached", reader_seek_scenario(True), reader_seek_claims),
         Scenario("PagedReader::align from INV state", reader_align_scenario(), reader_align_claims),
     ]
+
+
+# =============================================================================================== reader histories from PagedReader::new
+def reader_history_scenario(nops=3, max_pages=3, max_n=1100):
+    def scen(I):
+        init_interp(I)
+        npages = fresh("hdev_pages", bits=8)
+        I.path.assume(z3.And(z3.UGE(npages, U64(1)), z3.ULE(npages, U64(max_pages))))
+        I.path.assume(z3.ULT(I.crc_k, U64(PAYLOAD)))
+        content = sym_buf("hdev_content", npages * U64(PAGE))
+        dev = Dev("hdev", content, npages * U64(PAGE), fresh("hdev_pos"))
+        o = dict(npages=npages, content=content, dev=dev, ops=[])
+        I.last_state = o
+        r = I.call_fn(I.methods[("PagedReader", None, "new")], [dev, U64(PAGE)])
+        o["new"] = r
+        if r.vname != "Ok":
+            return o
+        holder = {"rd": r.fields[0]}
+        o["holder"] = holder
+        rref = Ref(Loc(holder, "rd"))
+        for k in range(nops):
+            p = fresh("h_p%d" % k)
+            n = fresh("h_n%d" % k, bits=16)
+            I.path.assume(z3.ULE(n, U64(max_n)))
+            I.path.assume(z3.ULT(urem(p, PAGE), U64(PAYLOAD)))
+            op = dict(p=p, n=n)
+            o["ops"].append(op)
+            op["seek"] = I.call_fn(I.methods[("PagedReader", None, "seek_physical")], [rref, p])
+            if op["seek"].vname != "Ok":
+                continue
+            holder["dst%d" % k] = sym_buf("h_dst%d" % k, n)
+            op["pre_dst"] = sym_buf("h_dst%d" % k, n)
+            op["read"] = I.call_fn(I.methods[("PagedReader", "Read", "read")], [rref, SliceRef(Loc(holder, "dst%d" % k), 0, n)])
+            op["dst"] = holder["dst%d" % k]
+        return o
+    return scen
+
+
+def reader_history_claims(o, I):
+    out = [("PagedReader::new accepts a whole number of pages", z3.BoolVal(o["new"].vname == "Ok"))]
+    if o["new"].vname != "Ok":
+        return out
+    npages, content = o["npages"], o["content"]
+    i = fresh("sk_i")
+    for k, op in enumerate(o["ops"]):
+        p, n = op["p"], op["n"]
+        inside = z3.ULT(p, npages * U64(PAGE))
+        out.append(("op %d: seek_physical Ok iff inside the file" % k, z3.BoolVal(op["seek"].vname == "Ok") == inside))
+        if op["seek"].vname != "Ok":
+            continue
+        l = p - U64(4) * udiv(p, PAGE)
+        page = udiv(l, PAYLOAD)
+        inpage = urem(l, PAYLOAD)
+        valid = page_valid(I, content.fn, page)
+        res = op["read"]
+        # the result of every operation is the same function of (device, position, length), whatever happened before
+        if res.vname == "Ok":
+            kk = res.fields[0]
+            want = z3.If(z3.ULT(n, U64(PAYLOAD) - inpage), n, U64(PAYLOAD) - inpage)
+            out.append(("op %d: Ok only from a valid page" % k, valid))
+            out.append(("op %d: count = min(n, rest of page)" % k, kk == want))
+            out.append(("op %d: bytes = device payload at that position" % k, z3.Implies(z3.ULT(i, kk), op["dst"].at(i) == content.fn(page * U64(PAGE) + inpage + i))))
+        else:
+            out.append(("op %d: Err only for an invalid page" % k, z3.Not(valid)))
+    return out
+
+
+READER_HISTORY_DRIVER = r"""
+#[cfg(test)]
+mod verif_replay {
+    use super::*;
+    use std::io::{Cursor, Read};
+%(helpers)s
+    #[test]
+    fn verif_replay_case() {
+        let dev: Vec<u8> = %(dev)s;
+        let mut r = PagedReader::new(Cursor::new(dev), 1024).unwrap();
+        println!("VR pre_offset=0 post_offset=0");
+        %(ops)s
+    }
+}
+"""
+
+
+class ReaderHistoryReplay:
+    def extract(self, I, model, o):
+        npages = mval(model, o["npages"])
+        pre = dict(npages=npages, dev=seal_device(I, model, o["content"].fn, npages), sk=skolems(model), ops=[])
+        for op in o["ops"]:
+            n = mval(model, op["n"])
+            pre["ops"].append(dict(p=mval(model, op["p"]), n=n, dst=mbytes(model, op["pre_dst"].fn, n) if "pre_dst" in op else bytes(n)))
+        return pre
+
+    def run(self, I, scenario, claim_name, pre):
+        ops = ""
+        for k, op in enumerate(pre["ops"]):
+            ops += ("match r.seek_physical(%d) { Ok(_) => { println!(\"VR seek%d=ok\"); let mut dst: Vec<u8> = %s; "
+                    "match r.read(&mut dst[..]) { Ok(k) => println!(\"VR read%d=ok:{}\", k), Err(_) => println!(\"VR read%d=err\") } println!(\"VR dst%d=x{}\", vhex(&dst)); } "
+                    "Err(_) => println!(\"VR seek%d=err\") }\n        " % (op["p"], k, rust_bytes(op["dst"]), k, k, k, k))
+        code = READER_HISTORY_DRIVER % dict(helpers=HELPERS, dev=rust_bytes(pre["dev"]), ops=ops)
+        rc, out = run_rust_test(I.crate_dir, "paged_reader.rs", code)
+        kv = parse_kv(out)
+        info = dict(pre={k: (len(v) if isinstance(v, bytes) else v) for k, v in pre.items() if k != "ops"}, ops=[(o_["p"], o_["n"]) for o_ in pre["ops"]], rust=code)
+        pan = native_panicked(out)
+        if claim_name == "no panic":
+            return (pan is not None), "native: " + (pan or "no panic"), info
+        if pan or "post_offset" not in kv:
+            return False, "native run did not complete: " + (pan or out[-400:]), info
+        try:
+            FRESH_OVERRIDE.clear()
+            FRESH_OVERRIDE.update(pre["sk"])
+            I.native_crc = True
+            o = dict(npages=U64(pre["npages"]), content=CBuf(pre["dev"]), new=OkV(None), ops=[])
+            for k, op in enumerate(pre["ops"]):
+                d = dict(p=U64(op["p"]), n=U64(op["n"]))
+                d["seek"] = parse_result(kv, "seek%d" % k)
+                if d["seek"].vname == "Ok":
+                    d["read"] = parse_result(kv, "read%d" % k)
+                    d["dst"] = CBuf(bytes.fromhex(kv.get("dst%d" % k, "x")[1:]), op["n"])
+                o["ops"].append(d)
+            vals = {}
+            for name, c in scenario.claims(o, I):
+                c = z3.simplify(c) if not isinstance(c, bool) else z3.BoolVal(c)
+                vals[name] = True if z3.is_true(c) else (False if z3.is_false(c) else None)
+        finally:
+            FRESH_OVERRIDE.clear()
+            I.native_crc = False
+        info["native_claims"] = vals
+        if vals.get(claim_name) is False:
+            return True, "claim is false on the native run of the same operation history", info
+        other = [k for k, v in vals.items() if v is False]
+        if other:
+            return True, "on the native run of this history the claim '%s' is false (the named claim evaluates to %r)" % (other[0], vals.get(claim_name)), info
+        return False, "claim evaluates to %r natively" % (vals.get(claim_name),), info
+
+
+def reader_history_scenarios(tier="quick"):
+    return [Scenario("PagedReader history: new; 3 x (seek_physical; read) over any device of 1..3 pages", reader_history_scenario(3), reader_history_claims,
+                     max_paths=4000, time_budget=1200, replayer=ReaderHistoryReplay())]
